@@ -285,7 +285,8 @@ class Ctx:
         if self.notes:
             ev["coverage"].update(self.notes)
         EVID.mkdir(exist_ok=True)
-        (EVID / ("%s.json" % self.pid)).write_text(json.dumps(ev, indent=1, default=str))
+        if getattr(self, "write_evidence", True):
+            (EVID / ("%s.json" % self.pid)).write_text(json.dumps(ev, indent=1, default=str))
         for k in self.known:
             print("KNOWN-FINDING: property=%s %s" % (self.pid, k))
         seen = set()
